@@ -227,7 +227,26 @@ fn apply(doc: &mut Value, exp: &mut Value, m: &Mutn) -> bool {
                 1 => b64::url_nopad(&b),
                 2 => b64::url_pad(&b),
                 3 => b64::std_nopad(&b),
-                _ => b64::std_pad(&b),
+                4 => b64::std_pad(&b),
+                // base64url whose last symbol carries non-zero unused bits (a non-canonical spelling
+                // of the same bytes, which the decoder is configured to accept), unpadded / padded
+                _ => {
+                    if b.len() % 3 == 0 {
+                        return false;
+                    }
+                    const AB: &[u8; 64] = b"ABCDEFGHIJKLMNOPQRSTUVWXYZabcdefghijklmnopqrstuvwxyz0123456789-_";
+                    let mut t = b64::url_nopad(&b).into_bytes();
+                    let last = t.pop().unwrap();
+                    let idx = AB.iter().position(|c| *c == last).unwrap_or(0);
+                    t.push(AB[idx | if b.len() % 3 == 1 { 0x0f } else { 0x03 }]);
+                    let mut t = String::from_utf8(t).unwrap();
+                    if *how == 6 {
+                        while t.len() % 4 != 0 {
+                            t.push('=');
+                        }
+                    }
+                    t
+                }
             };
             *doc.pointer_mut(path).unwrap() = json!(s);
             true
@@ -325,7 +344,7 @@ fn parse_debug(kind: &str, text: &str) -> Result<Result<String, String>, String>
 
 fn mut_class(m: &Mutn) -> String {
     match m {
-        Mutn::Binary(p, h) => format!("binary:{}:{}", p.rsplit('/').next().unwrap_or(""), ["array", "base64url", "base64url-padded", "base64", "base64-padded"][*h as usize % 5]),
+        Mutn::Binary(p, h) => format!("binary:{}:{}", p.rsplit('/').next().unwrap_or(""), ["array", "base64url", "base64url-padded", "base64", "base64-padded", "base64url-trailing-bits", "base64url-trailing-bits-padded"][*h as usize % 7]),
         Mutn::Numeric(p, h) => format!("numeric:{}:{}", p.rsplit('/').next().unwrap_or(""), ["number", "string", "float", "float-string"][*h as usize % 4]),
         Mutn::Unknown(_, _, k) => format!("unknown-member:{}", ["scalar", "object", "array"][*k as usize % 3]),
         Mutn::Enum(p) => format!("unknown-enum:{}", p.rsplit('/').next().unwrap_or("")),
@@ -390,7 +409,7 @@ pub fn eval(c: &Case) -> (Vec<Finding>, String) {
 fn single_mutations(kind: &str) -> Vec<Mutn> {
     let mut v = vec![];
     for p in binary_paths(kind) {
-        for h in 1..5u8 {
+        for h in 1..7u8 {
             v.push(Mutn::Binary(p.into(), h));
         }
     }
@@ -722,7 +741,7 @@ fn emitted(stats: &mut Stats) {
 fn emitted_one(org: Org, mode: Mode, prf: bool, hmac: u8, user: u8, transports: u8, case: &Value) -> Vec<Finding> {
     let mut fs = vec![];
     let store = Shared::new(RefStore::new());
-    let mut auth = mk_auth(store.clone(), ScriptedUv::consenting(Log::new()), &AuthCfg { counter: true, id_len: None, hmac, hmac_mc: true });
+    let mut auth = mk_auth(store.clone(), ScriptedUv::consenting(Log::new()), &AuthCfg { counter: true, id_len: None, hmac, hmac_mc: true, order: 0 });
     auth = match transports {
         1 => auth.transports(vec![]),
         2 => auth.transports(vec![webauthn::AuthenticatorTransport::Usb]),
@@ -988,7 +1007,7 @@ pub fn run(ctx: &Ctx) -> Result<Run, String> {
     }
     let mut run = Run::from_stats(
         "exploration",
-        "creation and request options: all 256 presence patterns of the optional members x one presentation change at a time (each binary member as array / base64url +- padding / base64 +- padding, timeout and alg as number / numeric string / integral float / float string, an unknown scalar/object/array member at every position of every object, an unknown string for every enumeration, every string value spelled with JSON escapes (all characters, first and last, an escaped solidus plus upper-case hex) - the same JSON value, an unknown entry at every index of every lenient list incl. pubKeyCredParams entries with an unknown alg in every member order and with trailing unknown members); thorough: all pairs of changes on the full document. Every document is parsed through three routes (borrowed text, an owned serde_json::Value, a byte reader) which must agree (a disagreement is a finding of its own). Oracle: Debug of the parsed value equals that of the canonical presentation (unknown enum = member absent, unknown list entry = entry absent). Long binary members: a challenge of 255..100000 bytes in each of the five presentations parses to the same value. Named unknown members: every identifier-like string literal of the types and client crates (and near-miss spellings of the declared names) as the name of an undeclared member of every object, with seven value shapes, and standing in for each declared member of that object (it must stay ignored; the one spelling the pinned tree documents, allowList, is exempt). Plus base64url encode/decode identity on all byte strings up to length 2 (3 thorough) and patterned lengths 4..64 against an own RFC 4648 codec; every credential emitted by 72 register+authenticate ceremonies re-parsed from its JSON; CollectedClientData member order for 3 extra-data types x 16 orders of 0..3 unknown members x crossOrigin x type, and the client data emitted by Client::register/authenticate for five caller-supplied extras with a standard member's name at each position. Non-trivial = distinct case with at least one presentation change / non-empty input",
+        "creation and request options: all 256 presence patterns of the optional members x one presentation change at a time (each binary member as array / base64url +- padding / base64 +- padding / base64url with non-zero unused trailing bits +- padding, timeout and alg as number / numeric string / integral float / float string, an unknown scalar/object/array member at every position of every object, an unknown string for every enumeration, every string value spelled with JSON escapes (all characters, first and last, an escaped solidus plus upper-case hex) - the same JSON value, an unknown entry at every index of every lenient list incl. pubKeyCredParams entries with an unknown alg in every member order and with trailing unknown members); thorough: all pairs of changes on the full document. Every document is parsed through three routes (borrowed text, an owned serde_json::Value, a byte reader) which must agree (a disagreement is a finding of its own). Oracle: Debug of the parsed value equals that of the canonical presentation (unknown enum = member absent, unknown list entry = entry absent). Long binary members: a challenge of 255..100000 bytes in each of the five presentations parses to the same value. Named unknown members: every identifier-like string literal of the types and client crates (and near-miss spellings of the declared names) as the name of an undeclared member of every object, with seven value shapes, and standing in for each declared member of that object (it must stay ignored; the one spelling the pinned tree documents, allowList, is exempt). Plus base64url encode/decode identity on all byte strings up to length 2 (3 thorough) and patterned lengths 4..64 against an own RFC 4648 codec; every credential emitted by 72 register+authenticate ceremonies re-parsed from its JSON; CollectedClientData member order for 3 extra-data types x 16 orders of 0..3 unknown members x crossOrigin x type, and the client data emitted by Client::register/authenticate for five caller-supplied extras with a standard member's name at each position. Non-trivial = distinct case with at least one presentation change / non-empty input",
         true,
         stats,
     );
